@@ -1,110 +1,53 @@
 import Fabio.Generated.C05
 import Fabio.Model.Parse
 /-!
-C05 — obligations over the facts regenerated from `/repo` on every run.
+C05 — OBLIGATIONS over the facts regenerated from `/repo` on every run (`tools/factgen/c05.go`): statements the
+proof chain needs and that no correspondence stream can establish by running the code. Each names the breaking
+change it is there to exclude. Everything that merely pins the shape of sequential code whose input/output
+behaviour a stream compares with the model on every run lives in `C05Pins.lean` (change detectors).
 
-The facts pin meaning, not spelling (see the header of `tools/factgen/c05.go`): functions are found by role from
-the exported entry points, bodies are walked with calls into unexported helpers followed, expressions are
-printed as shapes (`_` = any local/parameter/receiver, `ƒ` = an unexported same-package callee, `g` = a
-package-level variable), constants are inlined and `switch` is an if-chain. Renaming locals or unexported
-functions, extracting/inlining helpers, if/else ↔ switch, named constants and `Replace(…, -1)` ↔ `ReplaceAll`
-leave every fact unchanged.
+The table commands, the rendering, `ParseAliases`, the option handling and the admin endpoint are sequential,
+deterministic code driven in-process by the six streams: nothing about them is an obligation. Two things remain.
 -/
 namespace Fabio.Props.C05Facts
 open Fabio Fabio.Generated.C05 Fabio.Model.Parse
 
-/-- closes conjunctions of closed equalities between literals -/
-syntax "pin" : tactic
-macro_rules | `(tactic| pin) => `(tactic| first | rfl | (apply And.intro <;> pin))
+/-- The regular expressions the tokenizer of `Model/Parse.lean` re-expresses, one per tokenizer function:
+`isComment`, `isBlank`, the three dispatch heads (`head kAdd|kDel|kWeight`), `matchAdd`, `matchDel`,
+`matchDelSvcTags`, `matchDelTags`, `matchWeightSvc`, `matchWeightSrc` (flexible-space replacement applied). The
+argument that Go's leftmost-first backtracking has at most one successful path on them — every `\s+`/`\S+` is
+followed by something of the other class, every optional group starts with `\s+` and a distinct keyword — was made
+for exactly these sources. -/
+def grammarSources : List String :=
+  ["match:^(#|//)", "match:^\\s*$",
+   "match:^route\\s+add", "match:^route\\s+del", "match:^route\\s+weight",
+   "find:^route\\s+add\\s+(\\S+)\\s+(\\S+)\\s+(\\S+)(\\s+weight\\s+(\\S+))?(\\s+tags\\s+\"([^\"]*)\")?(\\s+opts\\s+\"([^\"]*)\")?$",
+   "find:^route\\s+del\\s+(\\S+)(\\s+(\\S+)(\\s+(\\S+))?)?$",
+   "find:^route\\s+del\\s+(\\S+)\\s+tags\\s+\"([^\"]*)\"$",
+   "find:^route\\s+del\\s+tags\\s+\"([^\"]*)\"$",
+   "find:^route\\s+weight\\s+(\\S+)\\s+(\\S+)\\s+weight\\s+(\\S+)(\\s+tags\\s+\"([^\"]*)\")?$",
+   "find:^route\\s+weight\\s+(\\S+)\\s+weight\\s+(\\S+)\\s+tags\\s+\"([^\"]*)\"$"]
 
-/-! ### the command language -/
+/-- `Parse` (the three command parsers followed, the compile helper evaluated) consults exactly the regular
+expressions the tokenizer stands for — as a set; the order in which they are tried is a change detector.
+Excludes: an edit to a regular expression. A regular expression denotes an infinite language of which the
+streams see a sample: `[^"]*` → `.*?`, `(\S+)` → `([^\s"]+)` for one token, `\s+` → `\s*` before a keyword differ
+from the pinned sources only on lines (a quote inside a token, a token that ends in a keyword) the generators
+draw rarely or never, and the equivalence argument above would no longer be about the code. -/
+theorem grammar_regexes_pinned :
+    regexSources.all (grammarSources.contains ·) = true ∧ grammarSources.all (regexSources.contains ·) = true := by
+  decide
 
-/-- The regular expressions `Parse` consults, in order, with the calls into the three command parsers followed
-and the flexible-space replacement applied: comment, blank, `route add` (then `reAdd`), `route del` (then the
-service+tags, tags-only, plain forms in that order), `route weight` (then the service form, then the source
-form). These are the strings the tokenizer of `Model/Parse.lean` was validated for (stream `c05.line`), and the
-order is the order of `parseLine` / `parseRouteDel` / `parseRouteWeight`. -/
-theorem regex_events : regexEvents =
-    ["match:^(#|//)", "match:^\\s*$",
-     "match:^route\\s+add",
-     "find:^route\\s+add\\s+(\\S+)\\s+(\\S+)\\s+(\\S+)(\\s+weight\\s+(\\S+))?(\\s+tags\\s+\"([^\"]*)\")?(\\s+opts\\s+\"([^\"]*)\")?$",
-     "match:^route\\s+del",
-     "find:^route\\s+del\\s+(\\S+)\\s+tags\\s+\"([^\"]*)\"$",
-     "find:^route\\s+del\\s+tags\\s+\"([^\"]*)\"$",
-     "find:^route\\s+del\\s+(\\S+)(\\s+(\\S+)(\\s+(\\S+))?)?$",
-     "match:^route\\s+weight",
-     "find:^route\\s+weight\\s+(\\S+)\\s+(\\S+)\\s+weight\\s+(\\S+)(\\s+tags\\s+\"([^\"]*)\")?$",
-     "find:^route\\s+weight\\s+(\\S+)\\s+weight\\s+(\\S+)\\s+tags\\s+\"([^\"]*)\"$"] := by pin
-
-/-- the keywords of the tokenizer are the literals of the pinned regexes -/
-theorem keywords : kRoute = "route".toList ∧ kAdd = "add".toList ∧ kDel = "del".toList ∧
-    kWeight = "weight".toList ∧ kTags = "tags".toList ∧ kOpts = "opts".toList := by decide
-
-/-- the string functions reached from `Parse` (set): `TrimSpace` for the line and the tags, `Split` on `,`,
-`Fields` and `SplitN(·, "=", 2)` for the options, `ParseFloat(·, 64)` for the weight -/
-theorem parse_lib_calls : parseLibCalls =
-    ["strconv.ParseFloat(_, 64)", "strings.Fields(_)", "strings.Split(_, \",\")", "strings.SplitN(_, \"=\", 2)",
-     "strings.TrimSpace(_)"] := by pin
-
-/-- `Parse` trims each line once, reads with a default `bufio.Scanner` (64 KiB tokens, `Model.Parse.maxToken`) and
-reports the scanner's error (D29 repaired). -/
-theorem scanner_facts :
-    parseUsesNewScanner = true ∧ parseTrimsSpace = true ∧ parseSetsScannerBuffer = false ∧
-    parseChecksScannerErr = true ∧ maxScanTokenSize = maxToken := by pin
-
-/-- `Parse` is stateless from line to line: three variables live across iterations (the current definition, the
-line counter, the scanner — besides the named results), the only `continue` is the one guarded by the comment /
-blank-line regexes, and the only `append` adds the line's definition to the result. -/
+/-- `Parse` carries no state from line to line: at most three variables live across iterations (the current
+definition, the line counter, the scanner — besides the named results), the only `continue` is guarded by the
+comment / blank-line regular expressions alone, and at most one `append` exists (the line's definition to the
+result). This is what `parseLines` (a map over the lines) assumes.
+Excludes: any memory of earlier lines — seeded change m2 skipped a `route add` line byte-identical to an earlier one
+("add is idempotent"), which is wrong only after an intervening `del`/`weight` of that target, a coincidence the
+streams did not draw until a generator class was built for it; the next such state may key on something else. -/
 theorem parse_stateless :
-    parseLoopCarriedVars = 3 ∧ parseContinues = 1 ∧
-    parseContinueGuards = ["g.MatchString(_) || g.MatchString(_)"] ∧ parseAppends = ["append(_, _)"] := by pin
-
-/-! ### table commands (handlers found from `NewTable` by the command they serve) -/
-
-/-- all three commands lower-case the host somewhere on their path (D04 repaired); `NewTable` sorts at the end -/
-theorem hosts_lowered : addLowersHost = true ∧ delLowersHost = true ∧ weightLowersHost = true ∧ newTableSorts = true := by pin
-
-theorem hostpath_shape :
-    hostpathCalls = ["strings.HasPrefix(_, \":\")", "strings.SplitN(_, \"/\", 2)"] := by pin
-
-/-- the four forms of `route del`, what each removes, and that hosts are deleted from the table -/
-theorem del_shape :
-    delCases = ["len(_.Tags) > 0", "_.Src == \"\" && _.Dst == \"\"", "_.Dst == \"\""] ∧
-    delPredicates = ["(_.Service == \"\" || _.Service == _.Service) && ƒ(_.Tags, _.Tags)",
-      "_.Service == _.Service", "_.Service == _.Service",
-      "_.Service == _.Service && _.URL.String() == _.String()"] ∧
-    delDeletesHosts = true := by pin
-
-/-- `route add`: negative weights are clamped, then the de-duplication on service, URL string, fixed weight, tags -/
-theorem add_shape :
-    addClampAndDedup = ["_ < 0",
-      "_.Service == _ && _.URL.String() == _.String() && _.FixedWeight == _ && reflect.DeepEqual(_.Tags, _)"] := by pin
-
-/-- `route weight`: which targets match, and the share is divided by their number -/
-theorem weight_shape :
-    weightMatchConds = ["_ != \"\" && _.Service != _", "len(_) > 0 && !ƒ(_.Tags, _)"] ∧
-    weightDividesByMatches = true := by pin
-
-/-- `Routes.Less(i, j)`: lower-cased paths descending (`v0` = lower path of `i`, `v1` = of `j`), ties by the raw
-path descending — `Model.Route.pathLt` -/
-theorem less_shape : lessEvents =
-    ["v0, v1 := strings.ToLower(recv[p0].Path), strings.ToLower(recv[p1].Path)", "if v0 != v1",
-     "return v1 < v0", "return recv[p1].Path < recv[p0].Path"] := by pin
-
-/-! ### rendering -/
-
-/-- `TargetConfig`: `%.4f` for the fixed weight when it is > 0, plain quotes for tags (D07 repaired) and options,
-keys sorted -/
-theorem targetConfig_shape :
-    targetConfigFormats = ["route add %s %s %s", " weight %2.4f", " weight %.4f", " tags \"%s\"", " opts \"%s\""] ∧
-    targetConfigGuards = ["_", "_.FixedWeight > 0", "len(_.Tags) > 0", "len(_.Opts) > 0"] ∧
-    targetConfigSortsKeys = true := by pin
-
-/-- `Table.String()`: hosts in reverse order, lines joined by `\n`, rendered without effective weights
-(`false`), targets without traffic share left out only in the weighted display -/
-theorem string_shape :
-    tableStringJoins = ["strings.Join(_.ƒ(false), \"\\n\")"] ∧
-    tableStringSorts = ["sort.Sort(sort.Reverse(sort.StringSlice(_)))"] ∧
-    tableStringSkips = ["_ && _.Weight <= 0"] := by pin
+    parseLoopCarriedVars ≤ 3 ∧ parseContinues ≤ 1 ∧
+    parseContinueGuards.all (["g.MatchString(_) || g.MatchString(_)"].contains ·) = true ∧
+    parseAppends.length ≤ 1 := by decide
 
 end Fabio.Props.C05Facts
